@@ -5,4 +5,5 @@ cd /verif/mc
 export CARGO_NET_OFFLINE=true
 mkdir -p /verif/target
 CARGO_TARGET_DIR=/verif/target/a cargo build --release --offline
+CARGO_TARGET_DIR=/verif/target/b cargo build --release --offline --no-default-features
 cd /repo && RUSTFLAGS="--cfg stylua_verif" CARGO_TARGET_DIR=/verif/target/cli cargo build --release --offline --features luau,lua54,luajit
